@@ -15,7 +15,7 @@ ACCEPTED = [
     "exact_lambda", "exact_def", "posonly", "extra_default", "extra_default2", "loopvar_default", "kwonly_default",
     "starargs", "starargs_kwargs", "prefix_star", "partial_pos", "partial_kw", "partial_kwonly", "bound_method",
     "callable_instance", "staticmethod", "staticmethod_via_instance", "classmethod", "wraps", "wraps_lying",
-    "lru_cache", "genfunc", "nested_partial", "defaults_all",
+    "lru_cache", "genfunc", "nested_partial", "defaults_all", "class_new", "method_of_class_partial",
 ]
 NEED_ARG = {"posonly", "prefix_star"}
 # forms Python's call rejects (TypeError before the body is entered)
@@ -85,6 +85,12 @@ def make_form(form, impl, n):
     if form == "classmethod":
         ex(f"class C:\n    @classmethod\n    def cm(cls{', ' if ps else ''}{ps}):\n        return impl({ps})\nf = C.cm")
         return ns["f"]
+    if form == "class_new":  # a class used as the callable: `__new__` returns the results
+        ex(f"class C:\n    def __new__(cls{', ' if ps else ''}{ps}):\n        return impl({ps})\nf = C")
+        return ns["f"]
+    if form == "method_of_class_partial":  # an unbound method with `self` supplied through partial
+        ex(f"class C:\n    def m(self{', ' if ps else ''}{ps}):\n        return impl({ps})\nf = functools.partial(C.m, C())")
+        return ns["f"]
     if form == "wraps":
         return ex(f"def g({ps}):\n    return impl({ps})\n@functools.wraps(g)\ndef f(*a, **k):\n    return g(*a, **k)")
     if form == "wraps_lying":  # __wrapped__ advertises one more required parameter than the wrapper needs
@@ -116,6 +122,7 @@ def sig_of(form, n):
         "partial_kw": {"npos": n + 1, "ndef": 1}, "partial_kwonly": {"kwreq": 1, "kwbound": 1},
         "nested_partial": {"npos": n + 2, "bound": 2}, "bound_method": {"npos": n + 1, "bound": 1},
         "callable_instance": {"npos": n + 1, "bound": 1}, "classmethod": {"npos": n + 1, "bound": 1},
+        "class_new": {"npos": n + 1, "bound": 1}, "method_of_class_partial": {"npos": n + 1, "bound": 1},
         "wraps": {"npos": 0, "varargs": True}, "wraps_lying": {"npos": 0, "varargs": True},
         "too_few": {"npos": max(n - 1, 0)}, "too_many": {"npos": n + 1}, "kwonly_required": {"kwreq": 1},
         "partial_too_many": {"bound": 1}, "instance_too_many": {"npos": n + 2, "bound": 1},
